@@ -125,6 +125,12 @@ def c16_2(ctx):
                 out.append(ctx.bad(spec, "key record field `%s` is rewritten (`%s`) before the descriptor text and its checksum are built: a descriptor in another notation "
                                          "(e.g. 48'/1'/0'/2' with Bitcoin Core's checksum) no longer verifies or round-trips" % (k.value, ast.unparse(calls[0])[:80]), v, mod,
                                    key="verbatim:" + k.value))
+            elif [c for c in ast.walk(ex) if isinstance(c, ast.Call) and isinstance(c.func, ast.Name) and c.func.id in ("format", "hex", "int", "str", "oct", "bin")]:
+                # re-rendered through a number: int(text, 16) forgets leading zeros and case, format(.., "x") / hex() do not put them back
+                c0 = [c for c in ast.walk(ex) if isinstance(c, ast.Call) and isinstance(c.func, ast.Name) and c.func.id in ("format", "hex", "int", "str", "oct", "bin")][0]
+                out.append(ctx.bad(spec, "key record field `%s` is re-rendered through a number (`%s`) before the descriptor text and its checksum are built: leading zeros "
+                                         "(fingerprint 0f056943 -> f056943) and the supplied spelling are lost, the text no longer matches Bitcoin Core's and does not parse back" % (
+                                             k.value, ast.unparse(c0)[:80]), v, mod, key="verbatim:" + k.value))
             else:
                 out.append(ctx.err(spec, "origin of key record field `%s` not recognised: `%s`" % (k.value, ast.unparse(ex)[:80]), v, mod))
     return out
@@ -635,7 +641,55 @@ def c16_14(ctx):
     return shared_obligations(ctx, ["descriptor", "hd", "script"], "the result would depend on something other than the arguments and the object's current state")
 
 
+def c16_15(ctx):
+    """the key records of a descriptor are separated by exactly one comma: the text is split on "," and on nothing else.  A separator
+    *pattern* that also matches other characters (blanks, semicolons, runs) makes different texts parse to the same records, so a
+    substitution of a separator is not detected although the checksum of the regenerated text is right"""
+    import re._parser as sre
+    spec = "descriptor:P2WSHSortedMulti.parse"
+    mod, fn = rl.get(ctx, spec)
+    out = []
+    splits = []
+    for n in ast.walk(fn):
+        if isinstance(n, ast.Call) and isinstance(n.func, ast.Attribute) and n.func.attr == "split":
+            recv = ast.unparse(n.func.value)
+            if recv == "re" and len(n.args) >= 2 and "key_record" in ast.unparse(n.args[1]):
+                splits.append(("re", n))
+            elif "key_records" in recv:
+                splits.append(("str", n))
+    if not splits:
+        return [ctx.err(spec, "how the key records are separated is not recognised", fn, mod)]
+    f = Folder(ctx.repo, mod.name)
+    for kind, n in splits:
+        if kind == "str":
+            sep = f.fold(n.args[0]) if n.args else None
+            if sep == ",":
+                out.append(ctx.ok(spec, "key records are split on \",\" only", n, mod, key="record-separator"))
+            elif isinstance(sep, str) or not n.args:
+                out.append(ctx.bad(spec, "key records are split with `%s`: the separator is %s, not a single comma" % (ast.unparse(n), "any run of blanks" if not n.args else repr(sep)), n, mod,
+                                   key="record-separator"))
+            else:
+                out.append(ctx.err(spec, "separator `%s` not foldable" % ast.unparse(n.args[0]), n, mod))
+            continue
+        pat = f.fold(n.args[0])
+        if not isinstance(pat, str):
+            out.append(ctx.err(spec, "separator pattern `%s` not foldable" % ast.unparse(n.args[0]), n, mod))
+            continue
+        try:
+            parsed = list(sre.parse(pat))
+        except Exception as e:
+            out.append(ctx.err(spec, "separator pattern %r not parsable: %s" % (pat, e), n, mod))
+            continue
+        if len(parsed) == 1 and str(parsed[0][0]) == "LITERAL" and parsed[0][1] == ord(","):
+            out.append(ctx.ok(spec, "key records are split on the pattern \",\" only", n, mod, key="record-separator"))
+        else:
+            out.append(ctx.bad(spec, "key records are split on the pattern %r, which matches more than a single comma (other characters or runs of them): a descriptor in which a "
+                                     "separating comma was replaced parses to the same key records, so that substitution is not detected" % pat, n, mod, key="record-separator"))
+    return out
+
+
 OBLIGATIONS = [
+    ("C16.15", "TABLE separator", c16_15),
     ("C16.14", "SHARED", c16_14),
     ("C16.13", "SET-ORDER", c16_13),
     ("C16.1", "TABLE", c16_1),
